@@ -167,3 +167,131 @@ Proof.
   destruct (q_type q =? 16) eqn:E16; [lia|]. cbn [orb].
   rewrite (answer_opaque_form q ls p Hn Hok Hw Hop Hp). reflexivity.
 Qed.
+
+(* ---------------------------------------------------------------------------------- *)
+(* codec output: length bound and character set                                          *)
+
+Lemma enc_len_bound c cap d : wfb c = true -> (length (fst (encode c cap d)) <= 2 * length d + 1)%nat.
+Proof.
+  intros Hwf. destruct (enc_exact c Hwf cap d) as [_ [G2 [G3 _]]].
+  pose proof (k_ok c Hwf) as Hk. rewrite G3. unfold enclen.
+  set (n := snd (encode c cap d)) in *. clearbody n.
+  destruct Hk as [E|[E|E]]; rewrite E; lia.
+Qed.
+
+(* no codec emits '.' or NUL *)
+Definition hostchar (ch : N) : bool := negb (ch =? 46) && negb (ch =? 0).
+
+Lemma enc_hostchars c cap d : c = b32 \/ c = b64 \/ c = b64u \/ c = b128 ->
+  Forall (fun ch => hostchar ch = true) (fst (encode c cap d)).
+Proof.
+  intros [->|[->|[->| ->]]].
+  - apply alpha_from_sweep; [exact wfb_b32|vm_compute; reflexivity].
+  - apply alpha_from_sweep; [exact wfb_b64|vm_compute; reflexivity].
+  - apply alpha_from_sweep; [exact wfb_b64u|vm_compute; reflexivity].
+  - apply alpha_from_sweep; [exact wfb_b128|vm_compute; reflexivity].
+Qed.
+
+Lemma four_wfb c : c = b32 \/ c = b64 \/ c = b64u \/ c = b128 -> wfb c = true.
+Proof. intros [->|[->|[->| ->]]]; [exact wfb_b32|exact wfb_b64|exact wfb_b64u|exact wfb_b128]. Qed.
+
+(* ---------------------------------------------------------------------------------- *)
+(* stage 2: TXT                                                                          *)
+
+Lemma txt_chunk_pos : (1 <= txt_chunk)%nat.
+Proof. unfold txt_chunk. vm_compute. lia. Qed.
+
+Lemma puttxtbin_go_ok fuel : forall rem from,
+  (length from < fuel)%nat -> (2 * length from <= rem)%nat ->
+  exists txt, puttxtbin_go fuel rem from = Some txt /\ txt_tiled (S (length txt)) txt = true /\
+              (length from <= length txt <= 2 * length from)%nat.
+Proof.
+  induction fuel as [|fuel IH]; intros rem from Hf Hr; [lia|].
+  destruct from as [|x from']; [exists []; repeat split; cbn; lia|].
+  set (from := x :: from') in *.
+  assert (HL : (1 <= length from)%nat) by (unfold from; cbn [length]; lia).
+  cbn [puttxtbin_go]. fold from.
+  pose proof txt_chunk_pos as Hc.
+  set (tc := Nat.min (length from) txt_chunk).
+  assert (Htc : (1 <= tc <= length from)%nat) by (unfold tc; lia).
+  destruct (rem <? tc + 1)%nat eqn:E; [apply Nat.ltb_lt in E; lia|].
+  destruct (IH (rem - (tc + 1))%nat (skipn tc from)) as [rest [H1 [H2 H3]]].
+  - rewrite skipn_length. cbn [length] in Hf. lia.
+  - rewrite skipn_length. lia.
+  - rewrite H1. rewrite skipn_length in H3.
+    exists (N.of_nat tc :: firstn tc from ++ rest). split; [reflexivity|].
+    assert (Hfl : length (firstn tc from) = tc) by (apply firstn_length_le; lia).
+    split.
+    + pose proof (txt_tiled_cons (S (length rest)) (firstn tc from) rest H2) as T. rewrite Hfl in T.
+      apply (txt_tiled_mono _ _ _ T). cbn [length]. rewrite app_length. lia.
+    + cbn [length]. rewrite app_length, Hfl. lia.
+Qed.
+
+Lemma puttxtbin_ok rem from : (2 * length from <= rem)%nat ->
+  exists txt, puttxtbin rem from = Some txt /\ txt_tiled (S (length txt)) txt = true /\
+              (length from <= length txt <= 2 * length from)%nat.
+Proof. intros H. unfold puttxtbin. apply puttxtbin_go_ok; [lia|exact H]. Qed.
+
+Lemma answer_txt_form q ls data :
+  q_name q = name_of ls -> Forall label_ok ls -> (wire_len ls <= 255)%nat ->
+  q_type q = T_TXT -> (1 <= length data <= 2 * 4100)%nat ->
+  exists txt, txt_tiled (S (length txt)) txt = true /\ (1 <= length txt)%nat /\ N.of_nat (length txt) < 65536 /\
+  dns_encode_answer buf64k q data =
+    Some (hdr12 (q_id q) 132 0 1 (N.of_nat (length [txt])) 0 0 ++ enc_name ls ++ DnsWfProofs.be16 (q_type q) ++ DnsWfProofs.be16 1 ++
+          recs12 (q_type q) 1 0 [txt]).
+Proof.
+  intros Hn Hok Hw Hty Hd.
+  unfold dns_encode_answer. rewrite Hn.
+  destruct (buf64k <? 12)%nat eqn:E; [apply Nat.ltb_lt in E; unfold buf64k in E; lia|].
+  rewrite (putname_name_of _ ls Hok) by (unfold buf64k; lia). cbn [opt_bytes].
+  rewrite hdr_same, be16_same. change C_IN with 1.
+  rewrite checklen_true by len_solve. cbn [negb].
+  rewrite Hty. change ((T_TXT =? T_CNAME) || (T_TXT =? T_A)) with false. change ((T_TXT =? T_MX) || (T_TXT =? T_SRV)) with false.
+  change (T_TXT =? T_TXT) with true. cbv iota.
+  rewrite front_alt.
+  rewrite checklen_true by len_solve. cbn [negb].
+  destruct (puttxtbin_ok (buf64k - length (front (q_id q) T_TXT ls ++ rr_head T_TXT) - 2) data) as [txt [H1 [H2 H3]]]; [len_solve|].
+  rewrite H1. cbn [opt_bytes].
+  rewrite checklen_true by len_solve. cbn [negb].
+  exists txt. split; [exact H2|]. split; [lia|]. split; [lia|].
+  replace (N.of_nat (length txt) mod 65536) with (N.of_nat (length txt)) by lia.
+  rewrite <- !app_assoc. rewrite one_record_msg. reflexivity.
+Qed.
+
+Lemma txt_codec_cases downenc :
+  (exists c, (c = b32 \/ c = b64 \/ c = b64u \/ c = b128) /\ fst (txt_letter_codec downenc) = Some c) \/
+  fst (txt_letter_codec downenc) = None.
+Proof.
+  unfold txt_letter_codec.
+  destruct (downenc =? 83); [left; exists b64; cbn; tauto|].
+  destruct (downenc =? 85); [left; exists b64u; cbn; tauto|].
+  destruct (downenc =? 86); [left; exists b128; cbn; tauto|].
+  destruct (downenc =? 82); [right; reflexivity|].
+  left; exists b32; cbn; tauto.
+Qed.
+
+Lemma answer_wf_txt q ls p downenc td :
+  q_name q = name_of ls -> wf_labels ls -> ls <> [] -> q_id q < 65536 ->
+  q_type q = T_TXT -> (length p <= 4098)%nat ->
+  answer_goal q ls p downenc td.
+Proof.
+  intros Hn [Hok Hw] Hne Hid Hty Hp.
+  assert (Hat : answer_type (q_type q) = q_type q) by (rewrite Hty; reflexivity).
+  unfold answer_goal, write_dns. rewrite Hty.
+  change ((T_TXT =? T_CNAME) || (T_TXT =? T_A)) with false. change ((T_TXT =? T_MX) || (T_TXT =? T_SRV)) with false.
+  change (T_TXT =? T_TXT) with true. cbv iota.
+  destruct (txt_letter_codec downenc) as [oc letter] eqn:Etc.
+  set (body := match oc with Some c => fst (encode c (buf64k - 1) p) | None => firstn (buf64k - 1) p end).
+  assert (Hb : (length body <= 2 * length p + 1)%nat).
+  { destruct (txt_codec_cases downenc) as [[c [Hc Hfc]]|Hfc]; rewrite Etc in Hfc; cbn [fst] in Hfc; subst oc; unfold body.
+    - apply enc_len_bound, four_wfb, Hc.
+    - rewrite firstn_length. lia. }
+  destruct (answer_txt_form q ls (letter :: body) Hn Hok Hw Hty) as [txt [T1 [T2 [T3 T4]]]]; [cbn [length]; lia|].
+  assert (Hq : q_type q < 65536) by (rewrite Hty; unfold T_TXT; lia).
+  assert (Hqa : answer_type (q_type q) < 65536) by (rewrite Hat; exact Hq).
+  assert (HF : Forall2 (fun rd rdn => N.of_nat (length rd) < 65536 /\ rd_shape (answer_type (q_type q)) rd rdn /\ short_labels rdn)
+                       [txt] [None]).
+  { constructor; [|constructor]. split; [exact T3|]. split; [|exact I]. rewrite Hat, Hty. apply rs_txt; assumption. }
+  destruct (answer_msg_ok q ls [txt] [None] Hid Hq Hqa) as [msg [Hwf Hans]]; try assumption; [discriminate|cbn [length]; lia|].
+  eexists. exists td, msg. split; [rewrite T4; reflexivity|]. split; [rewrite Hat in Hwf; exact Hwf|exact Hans].
+Qed.
